@@ -1,5 +1,5 @@
 CONSTANTS Menu = "C07"
- MaxTail = 2
+ MaxTail = 1
  Layouts = {"siblings", "nested", "root"}
  AllPlants = TRUE
  Lite = FALSE
